@@ -865,6 +865,10 @@ SystemMaybe<bool> Fs::readMemoryOomGroupAt(const DirFd& dirfd) {
   if (!lines) {
     return SYSTEM_ERROR(lines.error());
   }
+  // an empty file is no answer ("0" or "1" is)
+  if (lines->empty()) {
+    return SYSTEM_ERROR(ENODATA);
+  }
   return *lines == std::vector<std::string>({"1"});
 }
 
